@@ -234,6 +234,23 @@ CHECKS["C13"] = dict(
          "c13_clean_dead_ends, with C13_clean_complete_refuted); termination is not claimed (explicit fuel)."),
    note=TB + "Assumptions: ground types without sums, distinct (name, type) primitives, no Function(P, []), at_most_k exercised only on finite languages, fuel 300000 with out-of-fuel reported as an error.  Known findings: clean leaves dead ends; the builder never applies function-typed variables; n_gram < 2 cannot honour forbidden patterns.",
    design="5/C13")
+CHECKS["C06"] = dict(
+   technique="Coq proof of the automaton-to-unambiguous-grammar conversions (state flattening, from_DFTA, from_DFTA_with_ngrams, from_CFG, clean, programs) against the automaton's own run + extracted-model/implementation correspondence",
+   text=("Theorems (Props/C06.v, closed under the global context, unbounded): for every deterministic automaton over a ranked alphabet whose "
+         "states are flattened injectively, the grammar read off the automaton derives p from the non-terminal of q iff the bottom-up run of p is "
+         "q, in exactly one way (C06_from_dfta); membership from the start symbols equals acceptance (C06_from_dfta_language); an accepted program "
+         "has exactly one derivation summed over the start symbols, a rejected one none (C06_unambiguous); the conversion never runs out of fuel "
+         "(C06_from_dfta_total); the same language, derivation counts, language list and programs() for every n-gram width (C06_ngrams, "
+         "C06_ngrams_total); programs() equals the length of the enumerated language, which is duplicate-free and is exactly the set of accepted "
+         "programs, for acyclic automata (C06_count); from_CFG preserves membership with one derivation per member (C06_from_cfg); clean() "
+         "preserves membership and derivation counts whenever it returns (C06_clean_partial, C06_clean_derivations_partial: termination of clean "
+         "is not proved); the flattening is defined and injective on the state shapes of the sharpening pipeline (C06_d2state_injective/_defined); "
+         "C06_d2state_collision_refuted / C06_pinned_language_refuted are witnesses for the flattening before the fix: commit (replayed on the "
+         "implementation on every run).  Each run compares membership, number of derivations, programs(), start-set and rule-table sizes of "
+         "from_DFTA and from_DFTA_with_ngrams (n = 1..3, clean off/on) with the extracted model and with DFTA.read, on random reduced acyclic typed "
+         "automata with pipeline-shaped states and on real add_dfta_constraints outputs, and from_CFG on C01-family grammars."),
+   note=TB + "Hypotheses: the automaton is a dict (distinct keys); each letter is used at one arity; states are built from Type objects, ints and tuples with (Type, payload) leaves; derivation counts are stated for well-ranked programs; a rank function witnesses acyclicity.  The code's work-list and stack orders are not modelled (a round-based closure with proved fuel is used); clean is modelled with explicit fuel; programs() after clean and 'read_product/minimise outputs have the shape predicate' are covered by the correspondence only.",
+   design="5/C06")
 NOT_YET = {}
 def main():
     props = [json.loads(l) for l in open(os.path.join(V, "properties.jsonl"))]
